@@ -360,7 +360,17 @@ fn locality(t: &mut Tape, obs: &mut Obs) -> R {
         4 => vec![0xff; 1 + t.below(40)],
         _ => vec![0x00; 1 + t.below(40)],
     };
-    check_pair(fam, &b, &x, ["valid", "corrupt-len", "truncated", "random"][form], obs)
+    check_pair(fam, &b, &x, ["valid", "corrupt-len", "truncated", "random"][form], obs)?;
+    // the structure exactly as long as it declares itself, against the same structure followed by everything else:
+    // whatever lies beyond the declared length must not influence value or outcome
+    if let Some(d) = (fam.declared)(&b) {
+        if d < b.len() {
+            let mut rest = b[d..].to_vec();
+            rest.extend_from_slice(&x);
+            check_pair(fam, &b[..d], &rest, "declared-prefix", obs)?;
+        }
+    }
+    Ok(())
 }
 
 /// the tape is raw: [family selector, split selector, bytes...]; b = first part of the bytes, x = the rest
